@@ -1,3 +1,294 @@
+// Command instr is the source-to-source instrumenter of the /verif machinery.
+// It re-reads pprof's current sources (through the base overlay, so that demo
+// mutations and candidate fixes are instrumented too), type-checks them with
+// go/types against export data, and writes instrumented copies plus an overlay
+// fragment. Rewrites (text splices at AST positions; files are never re-printed):
+//
+//	for ... := range m   (m of map type)  ->  range verifrt.Map(m)
+//	import "sync"                         ->  import sync ".../internal/verifrt/vsync"
+//	go f(a, b)                            ->  verifrt.Go(func() { f(a, b) })   (arguments pre-evaluated)
+//	os.WriteFile/ReadFile/...             ->  vos.WriteFile/...                (files listed in -vos)
+//	func entry of packages in -points     ->  verifrt.Yield("fn")
 package main
 
-func main() {}
+import (
+	"bytes"
+	"encoding/json"
+	"flag"
+	"fmt"
+	"go/ast"
+	"go/importer"
+	"go/parser"
+	"go/token"
+	"go/types"
+	"io"
+	"os"
+	"os/exec"
+	"path/filepath"
+	"sort"
+	"strings"
+)
+
+const mod = "github.com/google/pprof"
+
+type listPkg struct {
+	ImportPath string
+	Dir        string
+	Export     string
+	GoFiles    []string
+	Standard   bool
+	Error      *struct{ Err string }
+}
+
+type edit struct {
+	start, end int
+	text       string
+}
+
+var vosFuncs = map[string]bool{
+	"WriteFile": true, "ReadFile": true, "MkdirAll": true, "Mkdir": true, "OpenFile": true, "Create": true,
+	"CreateTemp": true, "Rename": true, "Remove": true, "Stat": true, "Open": true, "Chmod": true,
+}
+
+var fileMethods = map[string]bool{"Write": true, "WriteString": true, "Close": true, "Sync": true}
+
+func main() {
+	repo := flag.String("repo", "/repo", "repository root")
+	overlay := flag.String("overlay", "", "base overlay json")
+	out := flag.String("out", "", "output directory")
+	points := flag.String("points", "", "comma separated package suffixes whose function entries get a scheduling point")
+	flag.Parse()
+
+	var ov struct{ Replace map[string]string }
+	if *overlay != "" {
+		b, err := os.ReadFile(*overlay)
+		check(err)
+		check(json.Unmarshal(b, &ov))
+	}
+	readFile := func(p string) ([]byte, error) {
+		if r, ok := ov.Replace[p]; ok {
+			return os.ReadFile(r)
+		}
+		return os.ReadFile(p)
+	}
+
+	args := []string{"list", "-export", "-deps", "-json"}
+	if *overlay != "" {
+		args = append(args, "-overlay", *overlay)
+	}
+	args = append(args, "./...")
+	cmd := exec.Command("go", args...)
+	cmd.Dir = *repo
+	cmd.Stderr = os.Stderr
+	outb, err := cmd.Output()
+	check(err)
+	dec := json.NewDecoder(bytes.NewReader(outb))
+	exports := map[string]string{}
+	var targets []*listPkg
+	for {
+		var p listPkg
+		if err := dec.Decode(&p); err == io.EOF {
+			break
+		} else {
+			check(err)
+		}
+		if p.Export != "" {
+			exports[p.ImportPath] = p.Export
+		}
+		if instrumentable(p.ImportPath) {
+			pp := p
+			targets = append(targets, &pp)
+		}
+	}
+	pointPkgs := map[string]bool{}
+	for _, s := range strings.Split(*points, ",") {
+		if s != "" {
+			pointPkgs[s] = true
+		}
+	}
+
+	fset := token.NewFileSet()
+	imp := importer.ForCompiler(fset, "gc", func(path string) (io.ReadCloser, error) {
+		e, ok := exports[path]
+		if !ok {
+			return nil, fmt.Errorf("no export data for %s", path)
+		}
+		return os.Open(e)
+	})
+	replace := map[string]string{}
+	stats := map[string]int{}
+	for _, p := range targets {
+		var files []*ast.File
+		var names []string
+		srcs := map[string][]byte{}
+		for _, f := range p.GoFiles {
+			full := filepath.Join(p.Dir, f)
+			src, err := readFile(full)
+			check(err)
+			af, err := parser.ParseFile(fset, full, src, parser.ParseComments)
+			check(err)
+			files = append(files, af)
+			names = append(names, full)
+			srcs[full] = src
+		}
+		info := &types.Info{Types: map[ast.Expr]types.TypeAndValue{}, Uses: map[*ast.Ident]types.Object{}}
+		conf := types.Config{Importer: imp, Error: func(err error) {}}
+		_, _ = conf.Check(p.ImportPath, fset, files, info)
+		suffix := strings.TrimPrefix(p.ImportPath, mod+"/")
+		for i, af := range files {
+			if strings.HasSuffix(names[i], "zz_verif.go") {
+				continue // harness code injected by the overlay
+			}
+			eds := rewrite(fset, af, info, srcs[names[i]], pointPkgs[suffix], stats)
+			if len(eds) == 0 {
+				continue
+			}
+			src := apply(srcs[names[i]], eds)
+			rel, _ := filepath.Rel(*repo, names[i])
+			dst := filepath.Join(*out, strings.ReplaceAll(rel, string(filepath.Separator), "__"))
+			check(os.WriteFile(dst, src, 0644))
+			replace[names[i]] = dst
+		}
+	}
+	b, _ := json.MarshalIndent(map[string]any{"Replace": replace}, "", " ")
+	check(os.WriteFile(filepath.Join(*out, "overlay.json"), b, 0644))
+	var keys []string
+	for k := range stats {
+		keys = append(keys, k)
+	}
+	sort.Strings(keys)
+	for _, k := range keys {
+		fmt.Printf("instr: %s=%d\n", k, stats[k])
+	}
+	sb, _ := json.Marshal(stats)
+	check(os.WriteFile(filepath.Join(*out, "stats.json"), sb, 0644))
+}
+
+func instrumentable(path string) bool {
+	if path != mod && !strings.HasPrefix(path, mod+"/") {
+		return false
+	}
+	for _, skip := range []string{"/verifh", "/internal/verifrt", "/third_party", "/browsertests", "/fuzz", "/proto", "/internal/proftest"} {
+		if strings.Contains(path, skip) {
+			return false
+		}
+	}
+	return true
+}
+
+func check(err error) {
+	if err != nil {
+		fmt.Fprintln(os.Stderr, "instr:", err)
+		os.Exit(2)
+	}
+}
+
+func apply(src []byte, eds []edit) []byte {
+	sort.SliceStable(eds, func(i, j int) bool { return eds[i].start > eds[j].start })
+	for _, e := range eds {
+		src = append(src[:e.start:e.start], append([]byte(e.text), src[e.end:]...)...)
+	}
+	return src
+}
+
+func rewrite(fset *token.FileSet, af *ast.File, info *types.Info, src []byte, points bool, stats map[string]int) []edit {
+	var eds []edit
+	off := func(p token.Pos) int { return fset.Position(p).Offset }
+	needRT, needVOS := false, false
+	syncName := ""
+	osName := ""
+	for _, im := range af.Imports {
+		switch im.Path.Value {
+		case `"sync"`:
+			syncName = "sync"
+			if im.Name != nil {
+				syncName = im.Name.Name
+			}
+			eds = append(eds, edit{off(im.Pos()), off(im.End()), syncName + ` "` + mod + `/internal/verifrt/vsync"`})
+			stats["sync_imports"]++
+		case `"os"`:
+			osName = "os"
+			if im.Name != nil {
+				osName = im.Name.Name
+			}
+		}
+	}
+	_ = syncName
+	ast.Inspect(af, func(n ast.Node) bool {
+		switch s := n.(type) {
+		case *ast.RangeStmt:
+			tv, ok := info.Types[s.X]
+			if !ok || tv.Type == nil {
+				return true
+			}
+			if _, isMap := tv.Type.Underlying().(*types.Map); isMap {
+				eds = append(eds, edit{off(s.X.Pos()), off(s.X.Pos()), "verifrt.Map("})
+				eds = append(eds, edit{off(s.X.End()), off(s.X.End()), ")"})
+				needRT = true
+				stats["map_ranges"]++
+			}
+		case *ast.GoStmt:
+			// go f(args) -> verifrt.Go(func() { f(args) }); the call text is kept in
+			// place so that nested rewrites still apply. (Arguments are evaluated
+			// when the thread starts; pprof's go statements do not depend on that.)
+			eds = append(eds, edit{off(s.Pos()), off(s.Call.Pos()), "verifrt.Go(func() { "})
+			eds = append(eds, edit{off(s.Call.End()), off(s.Call.End()), " })"})
+			needRT = true
+			stats["go_stmts"]++
+		case *ast.CallExpr:
+			sel, ok := s.Fun.(*ast.SelectorExpr)
+			if !ok {
+				return true
+			}
+			// methods on *os.File -> vos.F<Method>(file, args...)
+			if tv, ok := info.Types[sel.X]; ok && tv.Type != nil && fileMethods[sel.Sel.Name] && tv.Type.String() == "*os.File" {
+				eds = append(eds, edit{off(s.Pos()), off(s.Pos()), "vos.F" + sel.Sel.Name + "("})
+				sep := ", "
+				if len(s.Args) == 0 {
+					sep = ""
+				}
+				eds = append(eds, edit{off(sel.X.End()), off(s.Lparen) + 1, sep})
+				needVOS = true
+				stats["file_methods"]++
+				return true
+			}
+			if osName == "" {
+				return true
+			}
+			id, ok := sel.X.(*ast.Ident)
+			if !ok || id.Name != osName || !vosFuncs[sel.Sel.Name] {
+				return true
+			}
+			if pn, ok := info.Uses[id].(*types.PkgName); !ok || pn.Imported().Path() != "os" {
+				return true
+			}
+			eds = append(eds, edit{off(id.Pos()), off(id.End()), "vos"})
+			needVOS = true
+			stats["os_calls"]++
+		case *ast.FuncDecl:
+			if points && s.Body != nil {
+				name := s.Name.Name
+				eds = append(eds, edit{off(s.Body.Lbrace) + 1, off(s.Body.Lbrace) + 1, ` verifrt.Yield("` + name + `");`})
+				needRT = true
+				stats["entry_points"]++
+			}
+		}
+		return true
+	})
+	if needVOS && osName != "" {
+		eds = append(eds, edit{len(src), len(src), "\nvar _ = " + osName + ".DevNull // keeps the import used after the vos rewrite\n"})
+	}
+	if needRT || needVOS {
+		// add imports right after the package clause
+		pos := off(af.Name.End())
+		text := ""
+		if needRT {
+			text += `; import verifrt "` + mod + `/internal/verifrt"`
+		}
+		if needVOS {
+			text += `; import vos "` + mod + `/internal/verifrt/vos"`
+		}
+		eds = append(eds, edit{pos, pos, text})
+	}
+	return eds
+}
